@@ -19,8 +19,10 @@ enum Stop {
     TerminalStep2,
     TerminalLastStep,
     Budget3,
+    /// terminal event function that is exactly zero at an accepted step end (no root search needed)
+    TerminalOnStepEnd,
 }
-const STOPS: [Stop; 5] = [Stop::None, Stop::NonTerminal, Stop::TerminalStep2, Stop::TerminalLastStep, Stop::Budget3];
+const STOPS: [Stop; 6] = [Stop::None, Stop::NonTerminal, Stop::TerminalStep2, Stop::TerminalLastStep, Stop::Budget3, Stop::TerminalOnStepEnd];
 
 /// placement alphabet relative to the grid, clipped to the span, sorted in the direction of
 /// integration and de-duplicated bitwise
@@ -96,7 +98,7 @@ fn check_case(cx: &Ctx, key: &str, tup: &[usize]) -> CaseOut {
     match cx.stop {
         Stop::None => {}
         Stop::NonTerminal => c.events = vec![EventSpec::new(EvKind::T(cx.ev_time.unwrap()))],
-        Stop::TerminalStep2 | Stop::TerminalLastStep => c.events = vec![EventSpec::new(EvKind::T(cx.ev_time.unwrap())).term(1)],
+        Stop::TerminalStep2 | Stop::TerminalLastStep | Stop::TerminalOnStepEnd => c.events = vec![EventSpec::new(EvKind::T(cx.ev_time.unwrap())).term(1)],
         Stop::Budget3 => c.max_steps = Some(3),
     }
     let mut cd = c.clone();
@@ -137,7 +139,7 @@ fn check_case(cx: &Ctx, key: &str, tup: &[usize]) -> CaseOut {
                 viol!("status", format!("status {:?} without a stop cause", s.status));
             }
         }
-        Stop::TerminalStep2 | Stop::TerminalLastStep => {
+        Stop::TerminalStep2 | Stop::TerminalLastStep | Stop::TerminalOnStepEnd => {
             if s.status != Status::UserInterrupt || s.t_events[0].len() != 1 {
                 viol!("status", format!("terminal event expected, status {:?}, events {:?}", s.status, s.t_events));
                 return out;
@@ -321,6 +323,7 @@ pub fn run_check(replay: Option<Value>) -> i32 {
                     let ev_time = match st {
                         Stop::NonTerminal | Stop::TerminalStep2 => Some(plain.xs[2.min(n - 1)] + 0.4 * plain.h(2.min(n - 1))),
                         Stop::TerminalLastStep => Some(plain.xs[n - 1] + 0.6 * plain.h(n - 1)),
+                        Stop::TerminalOnStepEnd => Some(plain.xs[3.min(n - 1)]),
                         _ => None,
                     };
                     let pl2 = plain_run(&sc.prob, &cfg).and_then(&with_grid).unwrap();
